@@ -322,7 +322,10 @@ found:
 int
 dt_io_write(struct dt_dt_s d, const char *fmt, zif_t zone, int apnd_ch)
 {
-	static char buf[256];
+/* the field printers below dt_strfdt() check their space per field, not
+ * per byte, so a field begun at the very end can run a few bytes over;
+ * keep a field's worth of slack behind the size we advertise */
+	static char buf[256U + 32U];
 	size_t n;
 
 	if (zone != NULL) {
@@ -332,7 +335,7 @@ dt_io_write(struct dt_dt_s d, const char *fmt, zif_t zone, int apnd_ch)
 		d.zdiff = 0U;
 		d.neg = 0U;
 	}
-	n = dt_io_strfdt(buf, sizeof(buf), fmt, d, apnd_ch);
+	n = dt_io_strfdt(buf, sizeof(buf) - 32U, fmt, d, apnd_ch);
 	__io_write(buf, n, stdout);
 	return (n > 0) - 1;
 }
